@@ -32,6 +32,7 @@ def families(quick):
         'loopsum': dict(Ops='{"LoopSum","Inflate","Multiply"}' if quick else '{"LoopSum","LoopConcat","Inflate","Multiply","Take","Add"}', LeafSet='{22}' if quick else '{1, 13, 22}', MaxOps=3, MaxNodes=5 if quick else 6, MaxLeaves=2 if quick else 3),
         'choose': dict(Ops='{"TakeDiag","Choose","Transpose","InsertAxis"}', LeafSet='{2, 25, 29}' if quick else '{2, 25, 28, 29}', MaxOps=d, MaxNodes=d + 3, MaxLeaves=3),
         'ravel': dict(Ops='{"Ravel","Unravel","Transpose","Sum","Take","Inflate"}', LeafSet='{2, 13}' if quick else '{2, 13, 25, 28}', MaxOps=d, MaxNodes=d + 3, MaxLeaves=2 if quick else 3),
+        'boolinflate': dict(Ops='{"Inflate","BoolToInt","IntToFloat","Add","LogicalNot","Sum"}', LeafSet='{6, 13, 14}' if quick else '{6, 13, 14, 18}', MaxOps=d, MaxNodes=d + 3, MaxLeaves=3),
         'suminflate': dict(Ops='{"Sum","Inflate","Multiply","Add","InsertAxis"}', LeafSet='{1, 13, 14}', MaxOps=d, MaxNodes=d + 3, MaxLeaves=3),
         'core': dict(Ops='CoreOps', LeafSet='{1, 2, 13}' if quick else '{1, 2, 9, 10, 13, 14, 22}', MaxOps=2, MaxNodes=4 if quick else 5, MaxLeaves=2 if quick else 3),
     }
